@@ -289,7 +289,7 @@ Qed.
 (* the lineage of a simple paragraph is the lineage of the state after the
    two set_caret calls that precede its creation; both depend only on the
    element's local name and the incoming state *)
-Lemma simple_par_lineage : forall v e ks path s s' ps,
+Lemma simple_par_lineage_caret : forall v e ks path s s' ps,
   simple_par (AE e ks) = true -> walk v path (AE e ks) s = Ok s' ->
   pars_at 4%nat (c_tree s) = Ok ps ->
   exists p s1 s1a, pars_at 4%nat (c_tree s') = Ok (ps ++ [p])
@@ -363,9 +363,9 @@ Proof.
     as (p1 & P1 & O1 & _ & _ & D1 & El1 & _ & St1 & _ & (bl1 & n1 & cs1 & N1 & _ & C1 & Lp1 & _)).
   destruct (simple_par_walk v2 e ks2 path s s2 ps Hs2 HI W2 Hps)
     as (p2 & P2 & O2 & _ & _ & D2 & El2 & _ & St2 & _ & (bl2 & n2 & cs2 & N2 & _ & C2 & Lp2 & _)).
-  destruct (simple_par_lineage v1 e ks1 path s s1 ps Hs1 W1 Hps)
+  destruct (simple_par_lineage_caret v1 e ks1 path s s1 ps Hs1 W1 Hps)
     as (p1' & sa & sb & P1' & Ea & Eb & L1).
-  destruct (simple_par_lineage v2 e ks2 path s s2 ps Hs2 W2 Hps)
+  destruct (simple_par_lineage_caret v2 e ks2 path s s2 ps Hs2 W2 Hps)
     as (p2' & sa' & sb' & P2' & Ea' & Eb' & L2).
   rewrite P1 in P1'. injection P1' as P1'. apply app_inj_tail in P1'. destruct P1' as [_ <-].
   rewrite P2 in P2'. injection P2' as P2'. apply app_inj_tail in P2'. destruct P2' as [_ <-].
@@ -389,5 +389,5 @@ Print Assumptions images_keys_distinct.
 Print Assumptions images_spec.
 Print Assumptions html_flag_only_in_x2h.
 Print Assumptions part_env_x2h.
-Print Assumptions simple_par_lineage.
+Print Assumptions simple_par_lineage_caret.
 Print Assumptions par_structure_independent.
